@@ -557,3 +557,600 @@ Example positional_no_interference_nonvacuous :
   [Some (OCall [Val [55]%N []; Val [34; 97; 34]%N []]); Some OInvalidParams;
    Some (OCall [Val [48]%N []; Val [34; 98; 34]%N []])].
 Proof. vm_compute. reflexivity. Qed.
+
+(* ------------------------------------------------------------------------- *)
+(** * C16: null elements                                                      *)
+
+(* encoding/json: "the JSON null value unmarshals into an interface, map, pointer, or
+   slice by setting that Go value to nil ... otherwise the JSON null value has no
+   effect" - either way a FRESH variable is left holding its zero value, and no error
+   is reported.  (A hypothesis on the element oracle, like struct_contract; it fails
+   for a type whose own UnmarshalJSON rejects null.) *)
+Definition null_contract (decode_elt : ty -> elt -> option value) (zero : ty -> value) : Prop :=
+  forall X, decode_elt X null_elt = Some (zero X).
+
+Lemma set_nth_nth_error_ge {A} i (v : A) l : length l <= i -> set_nth i v l = l.
+Proof. revert i; induction l as [|x l IH]; intros [|i] H; cbn in *; try lia; auto. f_equal. apply IH; lia. Qed.
+
+Section Null.
+  Variable decode : ty -> bool -> pvalue -> option value.
+  Variable zero : ty -> value.
+  Variable decode_elt : ty -> elt -> option value.
+  Hypothesis HN : null_contract decode_elt zero.
+
+  (* an array of nulls is accepted and gives the zero values *)
+  Lemma decode_each_all_null xs :
+    decode_each decode_elt xs (repeat null_elt (length xs)) = Some (map zero xs).
+  Proof.
+    induction xs as [|X xs IH]; [reflexivity|]. cbn [length repeat decode_each map].
+    rewrite HN, IH. reflexivity.
+  Qed.
+
+  (* putting null in place of an element of an accepted array keeps it accepted; the
+     argument at that position becomes the zero value, the others stay *)
+  Lemma decode_each_set_null xs es vs i :
+    decode_each decode_elt xs es = Some vs ->
+    decode_each decode_elt xs (set_nth i null_elt es) = Some (set_nth i (zero (nth i xs TAny)) vs).
+  Proof.
+    revert es vs i; induction xs as [|X xs IH]; intros [|e es] vs i H; cbn in H; try discriminate.
+    - injection H as <-. destruct i; reflexivity.
+    - destruct (decode_elt X e) as [v|] eqn:Ed; [|discriminate].
+      destruct (decode_each decode_elt xs es) as [vs0|] eqn:Er; [|discriminate].
+      injection H as <-. destruct i as [|i]; cbn [set_nth decode_each nth].
+      + rewrite HN, Er. reflexivity.
+      + rewrite Ed, (IH es vs0 i Er). reflexivity.
+  Qed.
+
+  (* a null element of an accepted array leaves the zero value in its argument *)
+  Lemma decode_each_null_at xs es vs i :
+    decode_each decode_elt xs es = Some vs -> nth_error es i = Some null_elt ->
+    nth_error vs i = Some (zero (nth i xs TAny)).
+  Proof.
+    intros H Hn. destruct (decode_each_nth decode_elt xs es vs i null_elt H Hn) as (v & Hd & Hv).
+    rewrite HN in Hd. congruence.
+  Qed.
+
+  (* a null value under a name leaves the zero value in that argument *)
+  Lemma fill_null_at names xs kvs out k i :
+    fields_once names kvs [] = true ->
+    fill decode_elt names xs kvs (map zero xs) = Some out ->
+    In (k, null_elt) kvs -> match_field names k = Some i -> i < length xs ->
+    nth_error out i = Some (zero (nth i xs TAny)).
+  Proof.
+    intros Ho Hf Hin Hm Hi.
+    destruct (fill_present decode_elt names xs kvs (map zero xs) out k null_elt i Ho Hf Hin Hm) as (v & Hd & Hv).
+    { rewrite map_length. exact Hi. }
+    rewrite HN in Hd. congruence.
+  Qed.
+
+  (* at the level of the handler *)
+  Lemma positional_null xs outs names fi :
+    struct_contract decode zero decode_elt -> zero_contract zero ->
+    xs <> [] -> usable_names names = true ->
+    positional (FFunc (TCtx :: xs) false outs) names = Ok fi ->
+    wrap decode zero fi (PArray (repeat null_elt (length xs))) = OCall (map zero xs) /\
+    (forall es args i,
+       wrap decode zero fi (PArray es) = OCall args ->
+       wrap decode zero fi (PArray (set_nth i null_elt es)) = OCall (set_nth i (zero (nth i xs TAny)) args)) /\
+    (forall es args i,
+       wrap decode zero fi (PArray es) = OCall args -> nth_error es i = Some null_elt ->
+       nth_error args i = Some (zero (nth i xs TAny))) /\
+    (forall kvs args k i,
+       plain_params names (PObject kvs) = true ->
+       wrap decode zero fi (PObject kvs) = OCall args ->
+       In (k, null_elt) kvs -> match_field names k = Some i -> i < length xs ->
+       nth_error args i = Some (zero (nth i xs TAny))).
+  Proof.
+    intros HC HZ Hx Hu Hp.
+    assert (W : forall p, plain_params names p = true -> wrap decode zero fi p = _)
+      by (intros p; apply (positional_elementwise decode zero decode_elt xs outs names fi p HC HZ Hx Hu Hp)).
+    split; [|split; [|split]].
+    - rewrite (W (PArray _) eq_refl), decode_each_all_null. reflexivity.
+    - intros es args i H. rewrite (W (PArray es) eq_refl) in H. rewrite (W (PArray _) eq_refl).
+      destruct (decode_each decode_elt xs es) as [vs|] eqn:E; [|discriminate]. injection H as <-.
+      rewrite (decode_each_set_null xs es vs i E). reflexivity.
+    - intros es args i H Hn. rewrite (W (PArray es) eq_refl) in H.
+      destruct (decode_each decode_elt xs es) as [vs|] eqn:E; [|discriminate]. injection H as <-.
+      apply (decode_each_null_at xs es vs i E Hn).
+    - intros kvs args k i Hpl H Hin Hm Hi. rewrite (W (PObject kvs) Hpl) in H.
+      destruct (fill decode_elt names xs kvs (map zero xs)) as [out|] eqn:E; [|discriminate]. injection H as <-.
+      cbn [plain_params] in Hpl. apply andb_true_iff in Hpl. destruct Hpl as [_ Ho].
+      apply (fill_null_at names xs kvs out k i Ho E Hin Hm Hi).
+  Qed.
+End Null.
+
+(* the demonstration oracle of PosElem.v rejects null; one that accepts it: *)
+Definition nl_decode_elt (T : ty) (e : elt) : option value :=
+  if beq e null_elt then Some (ex_zero T) else ex_decode_elt T e.
+Definition nl_decode (T : ty) (strict : bool) (p : pvalue) : option value :=
+  match T with
+  | TStruct fs => option_map (Val []) (json_struct_spec nl_decode_elt ex_zero (names_of fs) (tys_of fs) p)
+  | _ => None
+  end.
+
+Lemma nl_struct_contract : struct_contract nl_decode ex_zero nl_decode_elt.
+Proof.
+  intros names xs p Hu Hl _ _. unfold usable_names in Hu. apply andb_true_iff in Hu. destruct Hu as [Hu _].
+  unfold pos_struct, nl_decode.
+  destruct (pos_fields_read_back 0 names xs Hu Hl) as [-> ->].
+  destruct (json_struct_spec nl_decode_elt ex_zero names xs p); reflexivity.
+Qed.
+
+Lemma nl_null_contract : null_contract nl_decode_elt ex_zero.
+Proof. intros X. reflexivity. Qed.
+
+Example positional_null_nonvacuous :
+  struct_contract nl_decode ex_zero nl_decode_elt /\ zero_contract ex_zero /\
+  null_contract nl_decode_elt ex_zero /\
+  (* [null,"a"], [7,null], [null,null], {"y":null,"x":7} *)
+  wrap nl_decode ex_zero ex_fi (PArray [null_elt; [34; 97; 34]]%N) = OCall [Val [48]%N []; Val [34; 97; 34]%N []] /\
+  wrap nl_decode ex_zero ex_fi (PArray [[55]%N; null_elt]) = OCall [Val [55]%N []; Val [34; 34]%N []] /\
+  wrap nl_decode ex_zero ex_fi (PArray [null_elt; null_elt]) = OCall [Val [48]%N []; Val [34; 34]%N []] /\
+  wrap nl_decode ex_zero ex_fi (PObject [([121]%N, null_elt); ([120], [55])]%N) = OCall [Val [55]%N []; Val [34; 34]%N []] /\
+  (* [null]: still the wrong length *)
+  wrap nl_decode ex_zero ex_fi (PArray [null_elt]) = OInvalidParams.
+Proof.
+  split; [exact nl_struct_contract|]. split; [exact ex_zero_contract|]. split; [exact nl_null_contract|].
+  vm_compute. repeat split.
+Qed.
+
+(* ------------------------------------------------------------------------- *)
+(** * C16: "accepts exactly", as an equivalence with declarative conditions    *)
+
+Lemma index_by_lt eqb k names i : index_by eqb k names = Some i -> i < length names.
+Proof.
+  revert i; induction names as [|n names IH]; intros i H; cbn in H; [discriminate|].
+  destruct (eqb k n).
+  - injection H as <-. cbn. lia.
+  - destruct (index_by eqb k names) as [j|]; [|discriminate]. injection H as <-.
+    cbn. specialize (IH j eq_refl). lia.
+Qed.
+
+Lemma match_field_lt names k i : match_field names k = Some i -> i < length names.
+Proof.
+  unfold match_field. destruct (index_by beq k names) as [j|] eqn:E.
+  - intros [= <-]. apply (index_by_lt _ _ _ _ E).
+  - apply index_by_lt.
+Qed.
+
+Section AcceptsIff.
+  Variable decode : ty -> bool -> pvalue -> option value.
+  Variable zero : ty -> value.
+  Variable decode_elt : ty -> elt -> option value.
+
+  (* an array is accepted with the arguments vs iff it has exactly one element per
+     argument and element i decodes, into Xi, to vs_i *)
+  Lemma decode_each_iff xs es vs :
+    decode_each decode_elt xs es = Some vs <->
+    length es = length xs /\ length vs = length xs /\
+    forall i e, nth_error es i = Some e ->
+      exists v, decode_elt (nth i xs TAny) e = Some v /\ nth_error vs i = Some v.
+  Proof.
+    split.
+    - intros H. destruct (decode_each_length decode_elt xs es vs H) as [H1 H2].
+      split; [exact H1|]. split; [exact H2|]. intros i e. apply (decode_each_nth decode_elt xs es vs i e H).
+    - revert es vs; induction xs as [|X xs IH]; intros es vs (H1 & H2 & H3).
+      + destruct es; [|discriminate]. destruct vs; [|discriminate]. reflexivity.
+      + destruct es as [|e es]; [discriminate|]. destruct vs as [|v vs]; [discriminate|].
+        cbn in H1, H2. cbn [decode_each].
+        destruct (H3 0 e eq_refl) as (v0 & Hd & Hv). cbn in Hd, Hv. injection Hv as <-. rewrite Hd.
+        rewrite (IH es vs); [reflexivity|].
+        split; [lia|]. split; [lia|]. intros i e' Hn. apply (H3 (S i) e' Hn).
+  Qed.
+
+  (* is the argument i addressed by some key of the object? *)
+  Definition addressed (names : list bytes) (kvs : list (bytes * elt)) (i : nat) : bool :=
+    existsb (fun kv => match match_field names (fst kv) with Some j => Nat.eqb j i | None => false end) kvs.
+
+  Lemma addressed_true names kvs i :
+    addressed names kvs i = true <-> exists k e, In (k, e) kvs /\ match_field names k = Some i.
+  Proof.
+    unfold addressed. rewrite existsb_exists. split.
+    - intros ([k e] & Hin & H). cbn [fst] in H. destruct (match_field names k) as [j|] eqn:Em; [|discriminate].
+      apply Nat.eqb_eq in H. subst j. eauto.
+    - intros (k & e & Hin & Hm). exists (k, e). split; [exact Hin|]. cbn [fst]. rewrite Hm. apply Nat.eqb_refl.
+  Qed.
+
+  Lemma addressed_false names kvs i :
+    addressed names kvs i = false -> forall k e, In (k, e) kvs -> match_field names k <> Some i.
+  Proof.
+    intros H k e Hin Hm.
+    assert (Ht : addressed names kvs i = true) by (apply addressed_true; eauto). congruence.
+  Qed.
+
+  (* an object addressing no argument twice is accepted with the arguments out iff
+     every key matches a name and its value decodes into the argument of that name,
+     out holding these values and, for arguments no key addresses, what was there *)
+  Lemma fill_iff names xs kvs slots out :
+    fields_once names kvs [] = true -> length slots = length names ->
+    (fill decode_elt names xs kvs slots = Some out <->
+     length out = length slots /\
+     (forall k e, In (k, e) kvs ->
+        exists i v, match_field names k = Some i /\ decode_elt (nth i xs TAny) e = Some v /\
+                    nth_error out i = Some v) /\
+     (forall i, (forall k e, In (k, e) kvs -> match_field names k <> Some i) ->
+        nth_error out i = nth_error slots i)).
+  Proof.
+    intros Ho Hl.
+    assert (Fwd : forall out', fill decode_elt names xs kvs slots = Some out' ->
+              length out' = length slots /\
+              (forall k e, In (k, e) kvs ->
+                 exists i v, match_field names k = Some i /\ decode_elt (nth i xs TAny) e = Some v /\
+                             nth_error out' i = Some v) /\
+              (forall i, (forall k e, In (k, e) kvs -> match_field names k <> Some i) ->
+                 nth_error out' i = nth_error slots i)).
+    { intros out' H. split; [apply (fill_length decode_elt names xs kvs slots out' H)|]. split.
+      - intros k e Hin. destruct (match_field names k) as [i|] eqn:Em.
+        + destruct (fill_present decode_elt names xs kvs slots out' k e i Ho H Hin Em) as (v & Hd & Hv).
+          { rewrite Hl. apply (match_field_lt names k i Em). }
+          exists i, v. auto.
+        + rewrite (fill_unknown_key decode_elt names xs kvs slots k e Hin Em) in H. discriminate.
+      - intros i Hno. apply (fill_missing decode_elt names xs kvs slots out' i H Hno). }
+    split; [apply Fwd|].
+    intros (H1 & H2 & H3).
+    destruct (fill_complete decode_elt names xs kvs slots) as [out' Hout'].
+    { intros k e Hin. destruct (H2 k e Hin) as (i & v & Hm & Hd & _). eauto. }
+    rewrite Hout'. f_equal. destruct (Fwd out' Hout') as (F1 & F2 & F3).
+    apply nth_error_ext. intros j.
+    destruct (addressed names kvs j) eqn:Ea.
+    - apply addressed_true in Ea. destruct Ea as (k & e & Hin & Hm).
+      destruct (H2 k e Hin) as (i & v & Hm1 & Hd1 & Hv1).
+      destruct (F2 k e Hin) as (i' & v' & Hm2 & Hd2 & Hv2).
+      assert (i = j) by congruence. assert (i' = j) by congruence. subst i i'. congruence.
+    - pose proof (addressed_false names kvs j Ea) as Hno. rewrite (F3 j Hno), (H3 j Hno). reflexivity.
+  Qed.
+
+  Lemma nth_error_map_zero xs i : i < length xs -> nth_error (map zero xs) i = Some (zero (nth i xs TAny)).
+  Proof.
+    revert i; induction xs as [|X xs IH]; intros [|i] H; cbn in *; try lia; auto. apply IH; lia.
+  Qed.
+
+  (* MAIN: the call happens, with the arguments args, iff the params are absent or null
+     and args are the zero values; or an array of exactly n elements, element i
+     decoding into Xi to args_i; or an object using only the given names (matched as
+     encoding/json matches them), each value decoding into the argument of its name,
+     the arguments no key names being zero; in every other case the answer is
+     InvalidParams (and never anything else). *)
+  Lemma positional_accepts_iff xs outs names fi p :
+    struct_contract decode zero decode_elt -> zero_contract zero ->
+    xs <> [] -> usable_names names = true ->
+    positional (FFunc (TCtx :: xs) false outs) names = Ok fi ->
+    plain_params names p = true ->
+    (forall args,
+       wrap decode zero fi p = OCall args <->
+       ((p = PAbsent \/ p = PNull) /\ args = map zero xs) \/
+       (exists es, p = PArray es /\ length es = length xs /\ length args = length xs /\
+          forall i e, nth_error es i = Some e ->
+            exists v, decode_elt (nth i xs TAny) e = Some v /\ nth_error args i = Some v) \/
+       (exists kvs, p = PObject kvs /\ length args = length xs /\
+          (forall k e, In (k, e) kvs ->
+             exists i v, match_field names k = Some i /\ decode_elt (nth i xs TAny) e = Some v /\
+                         nth_error args i = Some v) /\
+          (forall i, i < length xs -> (forall k e, In (k, e) kvs -> match_field names k <> Some i) ->
+             nth_error args i = Some (zero (nth i xs TAny))))) /\
+    ((forall args, wrap decode zero fi p <> OCall args) <-> wrap decode zero fi p = OInvalidParams).
+  Proof.
+    intros HC HZ Hx Hu Hp Hpl.
+    destruct (positional_info _ _ _ _ Hx Hp) as (Hl & _).
+    rewrite (positional_elementwise decode zero decode_elt xs outs names fi p HC HZ Hx Hu Hp Hpl).
+    split.
+    - intros args. destruct p as [| |es|kvs|t|t].
+      + split.
+        * intros [= <-]. left. auto.
+        * intros [[_ ->]|[(es & H & _)|(kvs & H & _)]]; [reflexivity|discriminate|discriminate].
+      + split.
+        * intros [= <-]. left. auto.
+        * intros [[_ ->]|[(es & H & _)|(kvs & H & _)]]; [reflexivity|discriminate|discriminate].
+      + split.
+        * intros H. right; left. exists es. split; [reflexivity|].
+          destruct (decode_each decode_elt xs es) as [vs|] eqn:E; [|discriminate]. injection H as <-.
+          apply decode_each_iff in E. exact E.
+        * intros [[[H|H] _]|[(es' & [= <-] & H)|(kvs & H & _)]]; try discriminate.
+          apply decode_each_iff in H. rewrite H. reflexivity.
+      + cbn [plain_params] in Hpl. apply andb_true_iff in Hpl. destruct Hpl as [_ Ho].
+        assert (Hls : length (map zero xs) = length names) by (rewrite map_length; congruence).
+        split.
+        * intros H. right; right. exists kvs. split; [reflexivity|].
+          destruct (fill decode_elt names xs kvs (map zero xs)) as [out|] eqn:E; [|discriminate]. injection H as <-.
+          apply (fill_iff names xs kvs (map zero xs) out Ho Hls) in E. destruct E as (E1 & E2 & E3).
+          rewrite map_length in E1. split; [exact E1|]. split; [exact E2|].
+          intros i Hi Hno. rewrite (E3 i Hno). apply nth_error_map_zero; exact Hi.
+        * intros [[[H|H] _]|[(es & H & _)|(kvs' & [= <-] & H1 & H2 & H3)]]; try discriminate.
+          assert (E : fill decode_elt names xs kvs (map zero xs) = Some args).
+          { apply (fill_iff names xs kvs (map zero xs) args Ho Hls). rewrite map_length.
+            split; [exact H1|]. split; [exact H2|]. intros i Hno.
+            destruct (Nat.lt_ge_cases i (length xs)) as [Hi|Hi].
+            - rewrite (H3 i Hi Hno). symmetry. apply nth_error_map_zero; exact Hi.
+            - assert (N1 : nth_error args i = None) by (apply nth_error_None; lia).
+              assert (N2 : nth_error (map zero xs) i = None) by (apply nth_error_None; rewrite map_length; lia).
+              congruence. }
+          rewrite E. reflexivity.
+      + split; [discriminate|]. intros [[[H|H] _]|[(es & H & _)|(kvs & H & _)]]; discriminate.
+      + split; [discriminate|]. intros [[[H|H] _]|[(es & H & _)|(kvs & H & _)]]; discriminate.
+    - destruct p as [| |es|kvs|t|t]; try (split; [intros H; exfalso; eapply H; reflexivity|discriminate]);
+        try (split; [reflexivity|discriminate]).
+      + destruct (decode_each decode_elt xs es); split; try reflexivity; try discriminate.
+        intros H; exfalso; eapply H; reflexivity.
+      + destruct (fill decode_elt names xs kvs (map zero xs)); split; try reflexivity; try discriminate.
+        intros H; exfalso; eapply H; reflexivity.
+  Qed.
+End AcceptsIff.
+
+(* the premises of positional_accepts_iff are satisfiable (concrete oracle of PosElem.v),
+   and both sides of its equivalence occur *)
+Example positional_accepts_iff_applies p :
+  plain_params ex_names p = true ->
+  (forall args, wrap ex_decode ex_zero ex_fi p = OCall args <-> _) /\ _ :=
+  positional_accepts_iff ex_decode ex_zero ex_decode_elt ex_xs [TScalar KString] ex_names ex_fi p
+    ex_struct_contract ex_zero_contract ltac:(discriminate) eq_refl eq_refl.
+
+Example positional_accepts_iff_nonvacuous :
+  wrap ex_decode ex_zero ex_fi (PObject [([89], [34; 98; 34])]%N) = OCall [Val [48]%N []; Val [34; 98; 34]%N []] /\
+  match_field ex_names [89]%N = Some 1 /\ match_field ex_names [122]%N = None /\
+  wrap ex_decode ex_zero ex_fi (PScalar [55]%N) = OInvalidParams.
+Proof. vm_compute. repeat split. Qed.
+
+(* ------------------------------------------------------------------------- *)
+(** * C16: Args.MarshalJSON, element by element                               *)
+
+Section ArgsMarshal.
+  Variable encode : ty -> value -> option elt.
+
+  (* the encoding of one target: `null` for a nil slot *)
+  Definition encode_slot (s : slot) : option elt :=
+    match s with None => Some null_elt | Some (T, v) => encode T v end.
+
+  Lemma encode_all_cons s a :
+    encode_all encode (s :: a) =
+    match encode_slot s, encode_all encode a with Some e, Some es => Some (e :: es) | _, _ => None end.
+  Proof. destruct s as [[T v]|]; reflexivity. Qed.
+
+  Lemma encode_all_some a es :
+    encode_all encode a = Some es <->
+    length es = length a /\ forall i s, nth_error a i = Some s -> encode_slot s = nth_error es i.
+  Proof.
+    revert es; induction a as [|s a IH]; intros es.
+    - cbn [encode_all]. split.
+      + intros [= <-]. split; [reflexivity|]. intros [|i] s H; discriminate.
+      + intros [Hl _]. destruct es; [reflexivity|discriminate].
+    - rewrite encode_all_cons. split.
+      + destruct (encode_slot s) as [e|] eqn:Ee; [|discriminate].
+        destruct (encode_all encode a) as [es0|] eqn:Ea; [|discriminate]. intros [= <-].
+        destruct (proj1 (IH es0) eq_refl) as [Hl Hn]. split; [cbn; lia|].
+        intros [|i] s' H; cbn in H |- *; [congruence|apply Hn; exact H].
+      + intros [Hl Hn]. destruct es as [|e es]; [discriminate|]. cbn in Hl.
+        pose proof (Hn 0 s eq_refl) as H0. cbn in H0. rewrite H0.
+        rewrite (proj2 (IH es)); [reflexivity|]. split; [lia|]. intros i s' H. apply (Hn (S i) s' H).
+  Qed.
+
+  Lemma encode_all_none a :
+    encode_all encode a = None <-> exists i T v, nth_error a i = Some (Some (T, v)) /\ encode T v = None.
+  Proof.
+    induction a as [|s a IH].
+    - cbn. split; [discriminate|]. intros ([|i] & T & v & H & _); discriminate.
+    - rewrite encode_all_cons. split.
+      + destruct (encode_slot s) as [e|] eqn:Ee.
+        * destruct (encode_all encode a) as [es|]; [discriminate|]. intros _.
+          destruct (proj1 IH eq_refl) as (i & T & v & Hn & He). exists (S i), T, v. auto.
+        * intros _. destruct s as [[T v]|]; [|discriminate]. exists 0, T, v. auto.
+      + intros ([|i] & T & v & Hn & He).
+        * cbn in Hn. injection Hn as ->. cbn [encode_slot]. rewrite He. reflexivity.
+        * cbn in Hn. assert (Ea : encode_all encode a = None) by (apply IH; eauto).
+          rewrite Ea. destruct (encode_slot s); reflexivity.
+  Qed.
+
+  (* Args.MarshalJSON: an array with one element per target, element i being the
+     encoding of target i (`null` for a nil slot); it fails iff some target fails *)
+  Lemma args_marshal_elementwise a :
+    (forall p, args_marshal encode a = Some p <->
+       exists es, p = PArray es /\ length es = length a /\
+         forall i s, nth_error a i = Some s ->
+           nth_error es i = match s with None => Some null_elt | Some (T, v) => encode T v end) /\
+    (args_marshal encode a = None <->
+       exists i T v, nth_error a i = Some (Some (T, v)) /\ encode T v = None).
+  Proof.
+    unfold args_marshal. split.
+    - intros p. split.
+      + destruct (encode_all encode a) as [es|] eqn:E; [|discriminate]. intros [= <-].
+        apply encode_all_some in E. destruct E as [Hl Hn]. exists es. split; [reflexivity|]. split; [exact Hl|].
+        intros i s H. rewrite <- (Hn i s H). destruct s as [[T v]|]; reflexivity.
+      + intros (es & -> & Hl & Hn).
+        assert (E : encode_all encode a = Some es).
+        { apply encode_all_some. split; [exact Hl|]. intros i s H. rewrite (Hn i s H).
+          destruct s as [[T v]|]; reflexivity. }
+        rewrite E. reflexivity.
+    - rewrite <- encode_all_none. destruct (encode_all encode a); cbn; split; congruence.
+  Qed.
+End ArgsMarshal.
+
+Example args_marshal_elementwise_nonvacuous :
+  args_marshal demo_encode demo_args = Some (PArray [bs [55]; null_elt; bs [113]]) /\
+  args_marshal (fun T v => if beq (enc_of v) (bs [113]) then None else Some (enc_of v)) demo_args = None /\
+  nth_error demo_args 2 = Some (Some (TScalar KString, Val (bs [113]) [])).
+Proof. vm_compute. repeat split. Qed.
+
+(* ------------------------------------------------------------------------- *)
+(** * C16: Obj.UnmarshalJSON when it fails                                    *)
+
+Section ObjFailure.
+  Variable decode_into : ty -> value -> elt -> bool * value.
+
+  (* a target whose key is absent from the JSON object is untouched - also when the
+     call fails (and every target is, when the params are not an object at all) *)
+  Lemma obj_loop_untouched base ord o ok o' k :
+    obj_loop decode_into base ord o = (ok, o') -> last_value k base = None ->
+    cell_get k o' = cell_get k o.
+  Proof.
+    revert o; induction ord as [|k0 ord IH]; intros o H Hl; cbn in H.
+    - injection H as _ <-. reflexivity.
+    - destruct (obj_step decode_into base k0 o) as [ok1 o1] eqn:Es.
+      destruct (obj_step_spec decode_into _ _ _ _ _ Es) as (_ & _ & Hget).
+      assert (E1 : cell_get k o1 = cell_get k o).
+      { rewrite Hget. destruct (beq_spec k k0) as [->|N]; [|reflexivity].
+        destruct (cell_get k0 o) as [s|]; [|reflexivity]. cbn. unfold visited. rewrite Hl.
+        destruct s as [[? ?]|]; reflexivity. }
+      destruct ok1.
+      + rewrite (IH o1 H Hl). exact E1.
+      + injection H as _ <-. exact E1.
+  Qed.
+
+  Lemma obj_unmarshal_untouched ord o p ok o' :
+    obj_unmarshal decode_into ord o p = (ok, o') ->
+    (as_object p = None -> ok = false /\ o' = o) /\
+    (forall base k, as_object p = Some base -> last_value k base = None -> cell_get k o' = cell_get k o).
+  Proof.
+    unfold obj_unmarshal. destruct (as_object p) as [base|].
+    - intros H. split; [discriminate|]. intros base' k [= <-] Hl.
+      apply (obj_loop_untouched base ord o ok o' k H Hl).
+    - intros [= <- <-]. split; [auto|discriminate].
+  Qed.
+End ObjFailure.
+
+Section ObjAdmissible.
+  Variable decode_into : ty -> value -> elt -> bool * value.
+
+  Lemma obj_loop_fail_split base ord : forall o o',
+    obj_loop decode_into base ord o = (false, o') ->
+    exists pre kf post o1, ord = pre ++ kf :: post /\
+      obj_loop decode_into base pre o = (true, o1) /\ obj_step decode_into base kf o1 = (false, o').
+  Proof.
+    induction ord as [|k ord IH]; intros o o' H; cbn in H; [discriminate|].
+    destruct (obj_step decode_into base k o) as [ok o1] eqn:Es. destruct ok.
+    - destruct (IH o1 o' H) as (pre & kf & post & o2 & -> & Hl & Hs).
+      exists (k :: pre), kf, post, o2. split; [reflexivity|]. split; [|exact Hs].
+      cbn. rewrite Es. exact Hl.
+    - injection H as <-. exists [], k, ord, o. auto.
+  Qed.
+
+  (* how one visit relates a target before and after, case by case *)
+  Lemma caf_same base kf k s : k <> kf -> cell_after_failure decode_into base kf (k, s) (k, s) = true.
+  Proof.
+    intros Hne. unfold cell_after_failure. cbn [fst snd]. rewrite beq_refl. cbn [andb].
+    destruct (beq_spec k kf) as [E|_]; [congruence|].
+    destruct s as [[T cur]|]; [|destruct (last_value k base); reflexivity].
+    rewrite beq_refl. destruct (last_value k base) as [e|]; [|reflexivity].
+    destruct (decode_into T cur e) as [ok v]. destruct ok; reflexivity.
+  Qed.
+
+  Lemma caf_visited base kf k s :
+    k <> kf ->
+    match s, last_value k base with
+    | None, Some _ => False
+    | Some (T, cur), Some e => fst (decode_into T cur e) = true
+    | _, _ => True
+    end ->
+    cell_after_failure decode_into base kf (k, s) (k, visited decode_into base k s) = true.
+  Proof.
+    intros Hne Hv. unfold cell_after_failure, visited. cbn [fst snd]. rewrite beq_refl. cbn [andb].
+    destruct (beq_spec k kf) as [E|_]; [congruence|].
+    destruct s as [[T cur]|]; destruct (last_value k base) as [e|]; try contradiction; try reflexivity.
+    - destruct (decode_into T cur e) as [ok v]. cbn [fst snd] in Hv |- *. subst ok.
+      rewrite beq_refl. apply orb_true_r.
+    - apply beq_refl.
+  Qed.
+
+  Lemma caf_failed base kf s :
+    match s, last_value kf base with
+    | None, Some _ => True
+    | Some (T, cur), Some e => fst (decode_into T cur e) = false
+    | _, _ => False
+    end ->
+    cell_after_failure decode_into base kf (kf, s) (kf, visited decode_into base kf s) = true.
+  Proof.
+    intros Hv. unfold cell_after_failure, visited. cbn [fst snd]. rewrite !beq_refl. cbn [andb].
+    destruct s as [[T cur]|]; destruct (last_value kf base) as [e|]; try contradiction; try reflexivity.
+    destruct (decode_into T cur e) as [ok v]. cbn [fst snd] in Hv |- *. subst ok.
+    rewrite beq_refl. reflexivity.
+  Qed.
+
+  Lemma cells_after_failure_intro base kf : forall o o',
+    NoDup (map fst o) -> map fst o' = map fst o ->
+    (forall k s s', cell_get k o = Some s -> cell_get k o' = Some s' ->
+       cell_after_failure decode_into base kf (k, s) (k, s') = true) ->
+    cells_after_failure decode_into base kf o o' = true.
+  Proof.
+    induction o as [|[k s] o IH]; intros [|[k' s'] o'] Hnd Hk H; try discriminate; [reflexivity|].
+    cbn in Hk. injection Hk as -> Hk. inversion Hnd as [|? ? Hnotin Hnd']; subst.
+    cbn [cells_after_failure]. apply andb_true_iff. split.
+    - apply H; cbn; rewrite beq_refl; reflexivity.
+    - apply IH; [exact Hnd'|exact Hk|]. intros k2 s2 s2' H1 H2.
+      assert (Hin : In k2 (map fst o)) by (apply cell_get_in; congruence).
+      assert (Hne : k2 <> k) by (intros ->; contradiction).
+      apply H; cbn; destruct (beq_spec k2 k); congruence.
+  Qed.
+
+  Lemma cells_after_failure_refl_nil o : cells_after_failure decode_into [] [] o o = true.
+  Proof.
+    induction o as [|[k s] o IH]; [reflexivity|]. cbn [cells_after_failure]. rewrite IH, andb_true_r.
+    unfold cell_after_failure. cbn [fst snd last_value]. rewrite beq_refl. cbn [andb].
+    destruct s as [[T v]|]; [apply beq_refl|reflexivity].
+  Qed.
+
+  Lemma not_mem_not_in k l : ~ In k l -> mem k l = false.
+  Proof.
+    intros H. destruct (mem k l) eqn:E; [|reflexivity]. exfalso. apply H. apply mem_In. exact E.
+  Qed.
+
+  (* Whatever the iteration order: the state of the targets after a FAILED
+     Obj.UnmarshalJSON is one of those obj_failure_admissible describes (the predicate
+     the correspondence check holds the real code to): the failing key's target holds
+     what its failed decode left, every other target holds either its old value or the
+     result of its own successful decode, and targets whose key is absent are untouched. *)
+  Lemma obj_failure_is_admissible ord o p o' :
+    NoDup (map fst o) -> NoDup ord -> (forall k, In k ord -> In k (map fst o)) ->
+    obj_unmarshal decode_into ord o p = (false, o') ->
+    obj_failure_admissible decode_into o p o' = true.
+  Proof.
+    intros Hnd Hno Hsub. unfold obj_unmarshal, obj_failure_admissible.
+    destruct (as_object p) as [base|]; [|intros [= <-]; apply cells_after_failure_refl_nil].
+    intros H. destruct (obj_loop_fail_split base ord o o' H) as (pre & kf & post & o1 & -> & Hpre & Hstep).
+    assert (Hnpre : NoDup pre).
+    { clear -Hno. induction pre as [|x pre IH]; [constructor|].
+      cbn in Hno. inversion Hno as [|? ? Hx Hr]; subst. constructor; [|apply IH; exact Hr].
+      intros Hin. apply Hx. apply in_or_app. left; exact Hin. }
+    assert (Hkf : ~ In kf pre).
+    { apply NoDup_remove_2 in Hno. intros Hin. apply Hno. apply in_or_app. left; exact Hin. }
+    destruct (obj_loop_ok decode_into base pre o o1 Hnpre Hpre) as (Hk1 & Hall & Hget1).
+    destruct (obj_step_spec decode_into _ _ _ _ _ Hstep) as (Hk2 & Hok & Hget2).
+    assert (Hnv : ~ visit_ok decode_into base o1 kf) by (intros Hv; apply Hok in Hv; discriminate).
+    assert (E1 : cell_get kf o1 = cell_get kf o).
+    { rewrite Hget1, (not_mem_not_in kf pre Hkf). reflexivity. }
+    unfold visit_ok in Hnv. rewrite E1 in Hnv.
+    apply existsb_exists. exists kf. split; [apply Hsub, in_or_app; right; left; reflexivity|].
+    apply andb_true_iff. split.
+    - unfold fails_at. destruct (cell_get kf o) as [[[T cur]|]|]; destruct (last_value kf base) as [e|];
+        try (exfalso; apply Hnv; exact I); try reflexivity.
+      destruct (fst (decode_into T cur e)); [exfalso; apply Hnv; reflexivity|reflexivity].
+    - apply cells_after_failure_intro; [exact Hnd|congruence|].
+      intros k s s' Hs Hs'. rewrite Hget2 in Hs'. destruct (beq_spec k kf) as [->|Hne].
+      + rewrite E1, Hs in Hs'. cbn in Hs'. injection Hs' as <-. rewrite Hs in Hnv.
+        apply caf_failed. destruct s as [[T cur]|]; destruct (last_value kf base) as [e|];
+          try (exfalso; apply Hnv; exact I); try exact I.
+        destruct (fst (decode_into T cur e)); [exfalso; apply Hnv; reflexivity|reflexivity].
+      + rewrite Hget1 in Hs'. destruct (mem k pre) eqn:Em.
+        * rewrite Hs in Hs'. cbn in Hs'. injection Hs' as <-.
+          apply caf_visited; [exact Hne|].
+          assert (Hv : visit_ok decode_into base o k) by (apply Hall, mem_In; exact Em).
+          unfold visit_ok in Hv. rewrite Hs in Hv.
+          destruct s as [[T cur]|]; destruct (last_value k base); auto.
+        * assert (s' = s) by congruence. subst s'. apply caf_same; exact Hne.
+  Qed.
+End ObjAdmissible.
+
+Example obj_failure_is_admissible_nonvacuous :
+  NoDup (map fst demo_obj) /\ NoDup [bs [98]; bs [97]] /\
+  obj_unmarshal demo_into [bs [98]; bs [97]] demo_obj (PObject [(bs [97], bs [88]); (bs [98], bs [50])]) =
+    (false, [(bs [97], Some (TScalar KInt, Val (bs [55]) [])); (bs [98], Some (TScalar KString, Val (bs [50]) []))]) /\
+  obj_unmarshal demo_into [bs [97]; bs [98]] demo_obj (PScalar (bs [49])) = (false, demo_obj) /\
+  (* the key "c" is absent: untouched although the call fails at "a" *)
+  snd (obj_unmarshal demo_into [bs [98]; bs [99]; bs [97]]
+         (demo_obj ++ [(bs [99], Some (TScalar KInt, Val (bs [57]) []))])
+         (PObject [(bs [97], bs [88]); (bs [98], bs [50])])) =
+    [(bs [97], Some (TScalar KInt, Val (bs [55]) [])); (bs [98], Some (TScalar KString, Val (bs [50]) []));
+     (bs [99], Some (TScalar KInt, Val (bs [57]) []))].
+Proof.
+  split; [|split].
+  - repeat constructor; cbn; intuition discriminate.
+  - repeat constructor; cbn; intuition discriminate.
+  - vm_compute. repeat split.
+Qed.
